@@ -22,6 +22,7 @@ DOES_NOT_DECIDE = 'nothing value-level: equality is bit equality of the stored a
 
 def run(ctx):
     helpers.run_for(ctx)
+    prune.check_loop_exhaustive(ctx, 'C08.R1', 'AffTree::reduce', '#all-nodes', 'decisions after that point are never considered')
     helpers.share_arena_contracts(ctx, 'C08.R5')
     F = ctx.facts
     b = ctx.body('C08.R1', 'AffTree::reduce')
